@@ -685,7 +685,9 @@ func (rig *c34Rig) e2e(c c34Case, method, path string, cl int, nobody bool, h []
 	// ---- Go-side oracle, response direction
 	// Region of the known finding `early-response-lost`: the handler answered without reading the
 	// whole request body while the client could not yet hand all of it to its QUIC stream.
-	early := obs.end == "stopped" && c.wbuf > 0 && total >= c.wbuf
+	// (With a small stream write buffer the loss is frequent; with the default buffer it still
+	// happens when the response overtakes the client's body-writing goroutine.)
+	early := obs.end == "stopped" && len(obs.body) < total
 	over := ""
 	if early {
 		over = "early-response-lost"
@@ -1111,8 +1113,17 @@ type c34Exec struct {
 func (x *c34Exec) attempt(o *vu.Out, f func(sink c34Sink) string) string {
 	buf := &c34Buf{}
 	res := vu.Catch(func() string { return f(buf) })
-	if x.rig.stalled && res != "panic" {
-		o.Stat("net:stall-retried-without-faults")
+	drop, reorder, dup := x.rig.tn.params()
+	faults := drop+reorder+dup > 0
+	// A connection-level failure under active faults (request never reached the handler / no
+	// response at all) is treated like a stall; it is counted separately so that it stays visible.
+	connFail := faults && (res == "err nohandler" || res == "err rt")
+	if (x.rig.stalled || connFail) && res != "panic" {
+		if x.rig.stalled {
+			o.Stat("net:stall-retried-without-faults")
+		} else {
+			o.Stat("net:connfail-under-faults-retried-without-faults")
+		}
 		x.rig.close()
 		x.rig = newC34Rig(x.t, x.prog)
 		buf = &c34Buf{}
